@@ -74,7 +74,7 @@ impl Caret {
         let was_ooe = self.pos.y > buf.get_last_editable_line();
 
         self.pos.x = 0;
-        self.pos.y += 1;
+        self.pos.y = self.pos.y.saturating_add(1);
         while self.pos.y >= buf.layers[current_layer].lines.len() as i32 {
             let len = buf.layers[current_layer].lines.len();
             let buffer_width = buf.terminal_state.get_width();
@@ -83,8 +83,8 @@ impl Caret {
         if !buf.is_terminal_buffer {
             return;
         }
-        if self.pos.y + 1 > buf.get_height() {
-            buf.set_height(self.pos.y + 1);
+        if self.pos.y.saturating_add(1) > buf.get_height() {
+            buf.set_height(self.pos.y.saturating_add(1));
         }
 
         if was_ooe {
@@ -182,7 +182,7 @@ impl Caret {
 
     /// Moves the cursor down one line in the same column. If the cursor is at the bottom margin, the page scrolls up.
     pub fn index(&mut self, buf: &mut Buffer, current_layer: usize) {
-        self.pos.y += 1;
+        self.pos.y = self.pos.y.saturating_add(1);
         self.check_scrolling_on_caret_down(buf, current_layer, true);
         buf.terminal_state.limit_caret_pos(buf, self);
     }
@@ -195,7 +195,7 @@ impl Caret {
     }
 
     pub fn next_line(&mut self, buf: &mut Buffer, current_layer: usize) {
-        self.pos.y += 1;
+        self.pos.y = self.pos.y.saturating_add(1);
         self.pos.x = 0;
         self.check_scrolling_on_caret_down(buf, current_layer, true);
         buf.terminal_state.limit_caret_pos(buf, self);
@@ -240,11 +240,13 @@ impl Buffer {
             }
             layer.lines[caret.pos.y as usize].insert_char(caret.pos.x, AttributedChar::default());
         }
-        if caret.pos.y + 1 > self.layers[layer].get_height() {
-            self.layers[layer].set_height(caret.pos.y + 1);
+        // in a document a cursor movement with a huge count can leave the caret on row i32::MAX
+        let rows = caret.pos.y.saturating_add(1);
+        if rows > self.layers[layer].get_height() {
+            self.layers[layer].set_height(rows);
         }
-        if self.is_terminal_buffer && caret.pos.y + 1 > self.get_height() {
-            self.set_height(caret.pos.y + 1);
+        if self.is_terminal_buffer && rows > self.get_height() {
+            self.set_height(rows);
         }
 
         self.layers[layer].set_char(caret.pos, ch);
